@@ -47,7 +47,7 @@ const (
 func (p Precompile) CreateValidator(
 	ctx sdk.Context,
 	origin common.Address,
-	_ *vm.Contract,
+	contract *vm.Contract,
 	stateDB vm.StateDB,
 	method *abi.Method,
 	args []interface{},
@@ -55,6 +55,13 @@ func (p Precompile) CreateValidator(
 	msg, delegatorHexAddr, err := NewMsgCreateValidator(args, p.stakingKeeper.BondDenom(ctx))
 	if err != nil {
 		return nil, err
+	}
+
+	// createValidator has no authorization (authz) flow and does not mirror the
+	// self-delegation debit into the EVM stateDB, so it must not be reachable
+	// through an intermediate contract: only the tx signer may call it directly.
+	if contract.CallerAddress != origin {
+		return nil, fmt.Errorf(ErrCreateValidatorCallerNotOrigin, contract.CallerAddress.String(), origin.String())
 	}
 
 	p.Logger(ctx).Debug(
